@@ -2,7 +2,8 @@
    Replacing the call (f a1 .. an) by the body of f in which the formals are
    replaced SIMULTANEOUSLY by the actuals preserves the value of the call
    (call by value, Proofs/Rw/InlineSide.v), under the side condition
-   inline_side -- which the mutator does not check (finding F19).
+   inline_side -- of which the mutator checks (after the fix of finding F19)
+   only the part inline_guard, see Proofs/Rw/InlineGuard.v.
 
    The substitution lemma relates TWO valuations: rho_in, in which the body is
    evaluated (the parameters are bound to the values of the actuals), and
@@ -244,20 +245,43 @@ Proof.
   cbn [bind_formals]. rewrite (IH args Hok); [reflexivity|]. cbn [length] in Hlen. congruence.
 Qed.
 
-Lemma instantiate_app d h args :
-  forallb formal_ok (d_formals d) = true -> length (d_formals d) = length args ->
-  instantiate d (T (h :: args)) = Some (subst_map (combine (map L (formal_names d)) args) (d_body d)).
-Proof.
-  intros Hok Hlen. unfold instantiate, formal_names.
-  rewrite (bind_formals_ok _ _ Hok Hlen), Hlen, Nat.eqb_refl.
-  destruct (combine (map L (map formal_name (d_formals d))) args); [now rewrite subst_map_nil | reflexivity].
-Qed.
-
 Lemma map_fst_combine {A B} : forall (l : list A) (l' : list B), length l = length l' -> map fst (combine l l') = l.
 Proof.
   induction l as [| a l IH]; intros [| b l'] H; try discriminate H; [reflexivity|].
   cbn [combine map fst]. f_equal. apply IH. cbn [length] in H. congruence.
 Qed.
+
+(* after the fix of F19: the node itself if the guard holds, the substituted body otherwise *)
+Lemma instantiate_app d h args :
+  forallb formal_ok (d_formals d) = true -> length (d_formals d) = length args ->
+  instantiate d (T (h :: args)) =
+  Some (if inline_guard d args then T (h :: args) else subst_map (combine (map L (formal_names d)) args) (d_body d)).
+Proof.
+  intros Hok Hlen. unfold instantiate, formal_names. cbv zeta.
+  rewrite (bind_formals_ok _ _ Hok Hlen), Hlen, Nat.eqb_refl.
+  assert (Hfst : map fst (combine (map L (map formal_name (d_formals d))) args) = map L (map formal_name (d_formals d))).
+  { apply map_fst_combine. now rewrite !map_length. }
+  unfold inline_guard, formal_names.
+  destruct (combine (map L (map formal_name (d_formals d))) args) as [| p m] eqn:Ec.
+  - cbn [map] in Hfst. rewrite <- Hfst.
+    assert (Ha : args = []).
+    { destruct args as [| a args]; [reflexivity|]. destruct (d_formals d); [discriminate Hlen | discriminate Ec]. }
+    subst args. cbn [existsb flat_map orb]. now rewrite subst_map_nil.
+  - rewrite Hfst. now destruct (_ || _).
+Qed.
+
+(* the guard does not hold: the substituted body, as before the fix *)
+Lemma instantiate_app_unguarded d h args :
+  forallb formal_ok (d_formals d) = true -> length (d_formals d) = length args ->
+  inline_guard d args = false ->
+  instantiate d (T (h :: args)) = Some (subst_map (combine (map L (formal_names d)) args) (d_body d)).
+Proof. intros Hok Hlen Hg. rewrite (instantiate_app d h args Hok Hlen), Hg. reflexivity. Qed.
+
+(* the guard holds: the node itself, rw_inline proposes nothing *)
+Lemma instantiate_app_guarded d h args :
+  forallb formal_ok (d_formals d) = true -> length (d_formals d) = length args ->
+  inline_guard d args = true -> instantiate d (T (h :: args)) = Some (T (h :: args)).
+Proof. intros Hok Hlen Hg. rewrite (instantiate_app d h args Hok Hlen), Hg. reflexivity. Qed.
 
 Lemma combine_map_L : forall ps (args : list sexp) s a,
   In (L s, a) (combine (map L ps) args) -> In (s, a) (combine ps args).
@@ -350,6 +374,7 @@ Proof.
       { unfold inline_side in Hside. cbv zeta in Hside. apply andb_true_iff in Hside as [Hside _].
         apply andb_true_iff in Hside as [Hside _]. now apply andb_true_iff in Hside as [Hside _]. }
       rewrite (instantiate_app d (L n) args Hok Elen) in HR.
+      destruct (inline_guard d args); [rewrite sexp_eqb_refl in HR; injection HR as <-; destruct Hin|].
       destruct (sexp_eqb _ _) in HR; injection HR as <-; [destruct Hin|].
       destruct Hin as [<- | []]. now apply inline_beta.
     + unfold instantiate in HR. rewrite Elen, sexp_eqb_refl in HR. injection HR as <-. destruct Hin.
